@@ -139,6 +139,7 @@ def cp_ranges(p, ctx, fn, lo, hi, gen):
 
 # ---------------------------------------------------------------------------
 class C02(Prop):
+    observed_from_suite = ["EscapeTrace"]
     id = "C02"
     trace_module = "EscapeTrace"
     design_ref = "DESIGN.md section 3, C02"
